@@ -84,6 +84,8 @@ def worker_main(path):
     out = {"status": "unknown", "model": {}, "time": 0.0, "reason": ""}
     try:
         if ob.get("solver", "z3") == "z3":
+            # 16 workers share 62 GB: a query that needs more than its share is reported inconclusive, not OOM-killed
+            z3.set_param("memory_max_size", int(os.environ.get("VF_Z3_MEM_MB", "3500")))
             s = z3.Solver()
             s.set("timeout", int(ob["timeout"] * 1000))
             s.from_string(ob["smt2"])
